@@ -575,10 +575,10 @@ impl RtpsReaderProxy {
                 }
                 self.set_highest_sent_seq_num(next_unsent_change_seq_num);
             }
-        } else if !self.unacked_changes(seq_num_max) && self.heartbeat_machine().has_sent_heartbeat()
-        {
-            // Idle. A reader that never got a heartbeat is told the state of the history once, also
-            // when the history is empty, so that it knows there is nothing (more) to wait for.
+        } else if !self.unacked_changes(seq_num_max) && self.last_received_acknack_count() > 0 {
+            // Idle. A reader that has not answered any heartbeat yet keeps being told the state of
+            // the history, also when the history is empty, so that it knows there is nothing (more)
+            // to wait for even if the first heartbeat is lost.
         } else if self
             .heartbeat_machine()
             .is_time_for_heartbeat(now, heartbeat_period.into())
